@@ -419,3 +419,9 @@ REWRITES = [
     Rewrite("old-test-direct-return", INB, "        if r.seqnum <= self._highest_inbound_acked:\n            return True\n        return False", "        return r.seqnum <= self._highest_inbound_acked", desc="comparison returned directly"),
     Rewrite("old-test-flipped", INB, "        if r.seqnum <= self._highest_inbound_acked:\n            return True\n        return False", "        if self._highest_inbound_acked >= r.seqnum:\n            return True\n        return False", desc="operands swapped"),
 ]
+
+# engine A5: use_connection / stop_using_connection pairing
+MUTANTS.append(Mutant("abandon-forgets-connection", MGR, "        self._connection.disconnect()  # let connection_lost do cleanup",
+                      "        self._connection.disconnect()  # let connection_lost do cleanup\n        self._connection = None", "C10.R11",
+                      "two cooperating sites: abandon clears _connection, _stop_using_connection returns early when it is None",
+                      also=((MGR, "        # the connection is already lost by this point\n", "        # the connection is already lost by this point\n        if self._connection is None:\n            return\n"),)))
